@@ -137,6 +137,16 @@ def run(prog, ctx):
                     root = root.children[0].strip()
                 if root.k == "MemberExpr" and root.j.get("rec") == "econf_file":
                     stored.setdefault(root.j["member"], []).append((st, rhs))
+        # &obj->field handed to a helper inside the region counts as a store by that helper
+        for c2 in f.calls():
+            if cfg.block_of(c2) not in region:
+                continue
+            for a2 in c2.call_args():
+                a3 = a2.strip()
+                if a3.k == "UnaryOperator" and a3.j.get("op") == "&":
+                    i3 = a3.children[0].strip()
+                    if i3.k == "MemberExpr" and i3.j.get("rec") == "econf_file":
+                        stored.setdefault(i3.j["member"], []).append((c2, None))
         own = EFFECTS[n]
         foreign = set(stored) & (all_fields - own)
         main = sorted(own)[0] if len(own) == 1 else [x for x in own if not x.endswith("count")][0]
@@ -147,7 +157,7 @@ def run(prog, ctx):
             ctx.fail("O2", "%s sets its own field" % n, c.where, "item %s never stores into %s" % (n, main), key="effect-missing:%s" % n)
         else:
             if n in ("JOIN_SAME_ENTRIES", "PYTHON_STYLE") and not any(r is not None and r.const_value() == 1 for (_, r) in stored[main]):
-                ctx.fail("O2", "%s sets its own field" % n, stored[main][0][0].where, "stores %s" % render(stored[main][0][1]), key="effect-value:%s" % n)
+                ctx.fail("O2", "%s sets its own field" % n, stored[main][0][0].where, "stores %s" % (render(stored[main][0][1]) if stored[main][0][1] is not None else "through a helper"), key="effect-value:%s" % n)
             else:
                 ctx.ok("O2", "%s sets its own field" % n, stored[main][0][0].where, "stores into %s only" % sorted(set(stored) & own))
         # the item is consumed: the region reaches the next token, not the not-found return
@@ -158,7 +168,7 @@ def run(prog, ctx):
             ctx.ok("O2", "%s is accepted" % n, c.where, "handled, then the next token is read")
         if n in COUNTERS:
             cnt = COUNTERS[n]
-            resets = [st for (st, r) in stored.get(cnt, []) if r is not None and r.const_value() == 0]
+            resets = [st for (st, r) in stored.get(cnt, []) if r is not None and r.const_value() == 0 and st.k != "CallExpr"]
             incs = [st for lhs, rhs, st, kind in query.stores(f) if kind == "++" and cfg.block_of(st) in region and cnt in render(lhs)]
             if resets and all(cfg.node_dominates(resets[0], x) for x in incs):
                 ctx.ok("O4", "%s restarts its counter" % n, resets[0].where, "%s = 0 before the element loop" % cnt)
